@@ -199,6 +199,9 @@ func genC09(t *rapid.T) c09Case {
 		o := gen.FullDiagramOpts()
 		return diagramCase(t, o, "diagram")
 	default:
+		if gen.Pick(t, "soup", 2, 1) == 1 {
+			return c09Case{Prog: genSoup(t)}
+		}
 		return c09Case{Prog: genFileSet(t, false)}
 	}
 }
